@@ -151,6 +151,7 @@ type c07Driver struct {
 	armN                int64 // pending cancellation fault: cancel after armN polls (-1 = none)
 	armNextAfterBarrier bool
 	scanCD              *c07Countdown
+	lastCD              *c07Countdown // countdown used by the most recent armed call
 	kinds               []string // op-kind sequence (fingerprint)
 	// C08 bookkeeping: what kinds of duplicate rejections / re-acceptances the history contained
 	dupAfter map[string]int
